@@ -549,3 +549,19 @@ func verifExclusiveSys(p uint16, s uint8, which uint8) int {
 //@ ensures [P:C04] (data[0] == 0xF1 || data[0] == 0xF3) ==> (cb_len(old(cb_n), 0) == 2 && cb_byte(old(cb_n), 0, 1) == data[1])
 //@ ensures [P:C07] data[0] == 0xF2 ==> (cb_len(old(cb_n), 0) == 3 && cb_byte(old(cb_n), 0, 1) == data[1] && cb_byte(old(cb_n), 0, 2) == data[2])
 //@ ensures [P:C04] data[0] == 0xF0 ==> (cb_len(old(cb_n), 0) == len(data) && forall j int :: 0 <= j && j < len(data) ==> cb_byte(old(cb_n), 0, j) == data[j])
+
+// ---------------------------------------------------------------- completing a channel message from a stream (C02)
+// one data byte (arg1) is already there; program change and channel pressure are complete, all others take one more
+//@ macro rcm1(status) = ((status >> 4) == 0xC || (status >> 4) == 0xD)
+//@ func ReadChannelMessage
+//@ requires rd != nil && 0 <= rd.spos && rd.spos <= rd.sn
+//@ modifies rd.spos, rd.sfault
+//@ ensures [P:C02] rcm1(status) ==> (err == nil && len(m) == 2 && m[0] == status && m[1] == arg1 && rd.spos == old(rd.spos) && rd.sfault == old(rd.sfault))
+//@ ensures [P:C02] !rcm1(status) && err == nil ==> (len(m) == 3 && m[0] == status && m[1] == arg1 && m[2] == rd.sdata[old(rd.spos)] && rd.spos == old(rd.spos) + 1)
+//@ ensures [P:C09] !rcm1(status) && rd.sfault == nil ==> (err == nil <==> old(rd.sn) - old(rd.spos) >= 1)
+//@ ensures [P:C10] err == io.EOF ==> rd.sfault == nil
+//@ ensures [P:C10] old(rd.sfault) != nil && !rcm1(status) ==> err == old(rd.sfault)
+//@ ensures [H] err != nil ==> len(m) == 0
+//@ ensures [H] old(rd.spos) <= rd.spos && rd.spos <= rd.sn && rd.spos <= old(rd.spos) + 1
+//@ ensures [H] rd.sfault == nil ==> old(rd.sfault) == nil
+//@ ensures [H] err != nil && rd.sfault == nil ==> (err == io.EOF && rd.spos == rd.sn)
